@@ -211,7 +211,7 @@ def classify(hist, idx, verdict):
     # process_pending_constraints(): the batch pending at the last processing call of the *incremental*
     # object re-merges a split variable (new `x >= 0`) and carries an inequality judged "already
     # satisfied" against the point of the previous solve
-    if src == "obs":
+    if src == "obs" and site != "MIP_Problem::solve_mip":
         trigger = idx if kind != "okinv" else idx     # okinv follows its observation line directly
         prof = pending_batch_profile(lineage(hist, trigger, slot) + ([toks] if kind != "okinv" else []))
         if prof:
